@@ -460,9 +460,52 @@ def showRes : Res → String
   | .err => "err"
   | .panic => "panic"
 
+/-! ### the string decoders of numbers.go called directly -/
+
+/-- `serix.DecodeUint256` = `hexutil.DecodeBig`: the byte length of the number, `none` = error -/
+def bigDecode (s : Bytes) : Option Nat :=
+  if decodeBigOk s then
+    match has0x s with
+    | some r => some (if r == [48] then 0 else (r.length + 1) / 2)
+    | none => none
+  else none
+
+/-- `nx hex|big|u64 "HEX`: `serix.DecodeHex` / `DecodeUint256` / `DecodeUint64` of a string -/
+def numbersStep (fn : String) (s : Bytes) : String :=
+  let out : Option Nat :=
+    match fn with
+    | "hex" => hexDecode s
+    | "big" => bigDecode s
+    | _ => none
+  if fn == "u64" then (if parseUintOk s then "ok" else "err")
+  else
+    match out with
+    | some n => s!"ok {n}"
+    | none => "err"
+
+/-- `serix.JSONDecode` on what `encoding/json` makes of a text: a text that is not JSON (`none`) or whose top-level value
+is not an object does not unmarshal into the `map[string]any`; `null` leaves the map empty -/
+def decText (c : Cfg) (t : JTy) : Option Json → Res
+  | none => .err
+  | some (.obj kvs) => dec c t (.obj kvs)
+  | some .null => dec c t (.obj [])
+  | some _ => .err
+
 /-- `j TARGET V schema… | doc…` -/
 def stepLine (toks : List String) : String :=
   match toks with
+  | "nx" :: fn :: k :: [] =>
+    match parseKey k with
+    | some s => numbersStep fn s
+    | none => "bad-op"
+  | "jt" :: _ :: v :: _ :: ts =>
+    match parseTy (ts.length + 1) ts with
+    | some (ty, "|" :: "X" :: []) => showRes (decText ⟨true, v == "1"⟩ ty none)
+    | some (ty, "|" :: ds) =>
+      match parseJson (ds.length + 1) ds with
+      | some (doc, _) => showRes (decText ⟨true, v == "1"⟩ ty (some doc))
+      | none => "bad-op"
+    | _ => "bad-op"
   | "j" :: _ :: v :: ts =>
     match parseTy (ts.length + 1) ts with
     | some (ty, "|" :: ds) =>
